@@ -45,7 +45,8 @@ type SQLModel struct {
 }
 
 type RawStmt struct {
-	Fn      string // enclosing function decl name
+	Fn      string // enclosing function decl name (the caller, when a helper handed the pieces executes it)
+	Helper  string // the helper that executes the statement, if any
 	Site    token.Pos
 	Builder string // builder function name, "" if built at the call site
 	Samples []core.SQLSample
@@ -406,6 +407,13 @@ func (m *SQLModel) collectRaw(p *core.Program) {
 					return true
 				}
 				rs := &RawStmt{Fn: core.DeclName(fd), Site: c.Pos()}
+				// query produced by a builder handed in as a function value:
+				//   q, args, err := build(nid, chunk)   with build a parameter of fd
+				if id, ok := c.Args[0].(*ast.Ident); ok {
+					if m.rawThroughBuilderParam(p, fd, c, id, builders) {
+						return true
+					}
+				}
 				// query produced by a builder function: q, args, err := buildX(...)
 				if id, ok := c.Args[0].(*ast.Ident); ok {
 					if bcall, bdecl := definingBuilderCall(m.Pkg, fd, id); bcall != nil {
@@ -447,7 +455,12 @@ func (m *SQLModel) collectRaw(p *core.Program) {
 						return true
 					}
 				}
-				ts, errs := core.EvalCallSite(m.Pkg, fd, c)
+				ts, errs, owner := core.EvalCallSite(m.Pkg, fd, c)
+				if owner != fd {
+					// the statement is executed by a helper of its only caller: it belongs to the caller
+					rs.Helper = rs.Fn
+					rs.Fn = core.DeclName(owner)
+				}
 				rs.Errs = append(rs.Errs, errs...)
 				for _, t := range ts {
 					ss, err := t.Samples()
@@ -476,6 +489,209 @@ func (m *SQLModel) collectRaw(p *core.Program) {
 		}
 	}
 	sort.Slice(m.Raw, func(i, j int) bool { return m.Raw[i].Site < m.Raw[j].Site })
+}
+
+// rawThroughBuilderParam: the query text id is defined by a call of a function-typed parameter of
+// fd. Every call of fd in the package is looked at: the argument for that parameter is a builder
+// function, or a closure that only forwards to one (binding some of its arguments). One RawStmt
+// per builder is recorded, owned by the function that calls fd.
+func (m *SQLModel) rawThroughBuilderParam(p *core.Program, fd *ast.FuncDecl, site *ast.CallExpr, id *ast.Ident, builders map[string]*RawStmt) bool {
+	info := m.Pkg.TypesInfo
+	obj := info.Uses[id]
+	var dyn *ast.CallExpr
+	ast.Inspect(fd.Body, func(n ast.Node) bool {
+		as, ok := n.(*ast.AssignStmt)
+		if !ok || len(as.Rhs) != 1 {
+			return true
+		}
+		c, ok := as.Rhs[0].(*ast.CallExpr)
+		if !ok {
+			return true
+		}
+		for _, l := range as.Lhs {
+			if li, ok := l.(*ast.Ident); ok && obj != nil && (info.Defs[li] == obj || info.Uses[li] == obj) {
+				dyn = c
+			}
+		}
+		return true
+	})
+	if dyn == nil {
+		return false
+	}
+	fid, ok := dyn.Fun.(*ast.Ident)
+	if !ok {
+		return false
+	}
+	pobj, ok := info.Uses[fid].(*types.Var)
+	if !ok {
+		return false
+	}
+	pidx, i := -1, 0
+	for _, fl := range fd.Type.Params.List {
+		for _, nm := range fl.Names {
+			if info.Defs[nm] == types.Object(pobj) {
+				pidx = i
+			}
+			i++
+		}
+	}
+	if pidx < 0 {
+		return false
+	}
+	fobj := info.Defs[fd.Name]
+	found := false
+	declOf := func(o types.Object) *ast.FuncDecl {
+		for _, f := range m.Pkg.Syntax {
+			for _, d := range f.Decls {
+				if bd, ok := d.(*ast.FuncDecl); ok && info.Defs[bd.Name] == o && bd.Body != nil {
+					return bd
+				}
+			}
+		}
+		return nil
+	}
+	for _, f := range m.Pkg.Syntax {
+		if p.IsTestFile(f.Pos()) {
+			continue
+		}
+		for _, d := range f.Decls {
+			cfd, ok := d.(*ast.FuncDecl)
+			if !ok || cfd.Body == nil || cfd == fd {
+				continue
+			}
+			ast.Inspect(cfd.Body, func(n ast.Node) bool {
+				c, ok := n.(*ast.CallExpr)
+				if !ok || pidx >= len(c.Args) {
+					return true
+				}
+				var cid *ast.Ident
+				switch f := c.Fun.(type) {
+				case *ast.Ident:
+					cid = f
+				case *ast.SelectorExpr:
+					cid = f.Sel
+				}
+				if cid == nil || info.Uses[cid] != fobj || fobj == nil {
+					return true
+				}
+				// the builder handed over, and how the arguments of the dynamic call reach it
+				arg := c.Args[pidx]
+				var bdecl *ast.FuncDecl
+				argFor := map[string]ast.Expr{} // builder parameter name -> expression
+				bindPositional := func(bd *ast.FuncDecl, actual []ast.Expr) {
+					k := 0
+					for _, fl := range bd.Type.Params.List {
+						for _, nm := range fl.Names {
+							if k < len(actual) {
+								argFor[nm.Name] = actual[k]
+							}
+							k++
+						}
+					}
+				}
+				if aid, ok := arg.(*ast.Ident); ok {
+					if bd := declOf(info.Uses[aid]); bd != nil {
+						bdecl = bd
+						bindPositional(bd, dyn.Args)
+					} else if lit := closureDefinedAs(info, cfd, info.Uses[aid]); lit != nil {
+						arg = lit
+					}
+				}
+				if lit, ok := arg.(*ast.FuncLit); ok && bdecl == nil && len(lit.Body.List) == 1 {
+					if ret, ok := lit.Body.List[0].(*ast.ReturnStmt); ok && len(ret.Results) == 1 {
+						if inner, ok := ret.Results[0].(*ast.CallExpr); ok {
+							if iid, ok := inner.Fun.(*ast.Ident); ok {
+								if bd := declOf(info.Uses[iid]); bd != nil {
+									bdecl = bd
+									// closure parameters stand for the arguments of the dynamic call
+									cl := map[types.Object]ast.Expr{}
+									k := 0
+									for _, fl := range lit.Type.Params.List {
+										for _, nm := range fl.Names {
+											if k < len(dyn.Args) {
+												cl[info.Defs[nm]] = dyn.Args[k]
+											}
+											k++
+										}
+									}
+									var actual []ast.Expr
+									for _, a := range inner.Args {
+										if ai, ok := a.(*ast.Ident); ok {
+											if e, ok := cl[info.Uses[ai]]; ok {
+												actual = append(actual, e)
+												continue
+											}
+										}
+										actual = append(actual, a)
+									}
+									bindPositional(bd, actual)
+								}
+							}
+						}
+					}
+				}
+				if bdecl == nil || bdecl.Type.Results == nil || len(bdecl.Type.Results.List) < 2 {
+					return true
+				}
+				found = true
+				// the nid argument is evaluated inside fd (the helper), the rest where the builder was chosen
+				bc := BuilderCall{Fn: core.DeclName(fd), Pos: dyn.Pos(), Args: argFor, Decl: fd}
+				name := bdecl.Name.Name
+				if prev, ok := builders[name]; ok {
+					prev.BuilderCalls = append(prev.BuilderCalls, bc)
+					return true
+				}
+				rs := &RawStmt{Fn: core.DeclName(cfd), Helper: core.DeclName(fd), Site: site.Pos(), Builder: name}
+				rs.BuilderCalls = append(rs.BuilderCalls, bc)
+				ts, errs := core.EvalBuilder(m.Pkg, bdecl)
+				rs.Errs = append(rs.Errs, errs...)
+				if len(ts) == 0 {
+					rs.Errs = append(rs.Errs, "builder "+name+" yields no template")
+				}
+				for _, t := range ts {
+					ss, err := t.Samples()
+					if err != nil {
+						rs.Errs = append(rs.Errs, err.Error())
+					}
+					for i := range ss {
+						if t.Variant != "" {
+							ss[i].Desc += " [" + t.Variant + "]"
+						}
+					}
+					rs.Samples = append(rs.Samples, ss...)
+				}
+				builders[name] = rs
+				m.Raw = append(m.Raw, rs)
+				return true
+			})
+		}
+	}
+	return found
+}
+
+// closureDefinedAs: the function literal assigned (once) to the local variable o in fd.
+func closureDefinedAs(info *types.Info, fd *ast.FuncDecl, o types.Object) *ast.FuncLit {
+	var lit *ast.FuncLit
+	n := 0
+	ast.Inspect(fd.Body, func(nd ast.Node) bool {
+		as, ok := nd.(*ast.AssignStmt)
+		if !ok || len(as.Lhs) != len(as.Rhs) {
+			return true
+		}
+		for i, l := range as.Lhs {
+			if li, ok := l.(*ast.Ident); ok && o != nil && (info.Defs[li] == o || info.Uses[li] == o) {
+				n++
+				if fl, ok := as.Rhs[i].(*ast.FuncLit); ok {
+					lit = fl
+				}
+			}
+		}
+		return true
+	})
+	if n != 1 {
+		return nil
+	}
+	return lit
 }
 
 // definingBuilderCall: `q, args, err := buildX(...)` that defines id within fd.
